@@ -6,6 +6,7 @@ import GoBatcher.Driver.Setters
 import GoBatcher.Driver.LeaseMgr
 import GoBatcher.Driver.LeaseMon
 import GoBatcher.Driver.Lease
+import GoBatcher.Driver.Events
 open GoBatcher.Driver
 
 structure Tot where
@@ -24,6 +25,8 @@ def handle (line : String) : Option (Option String × List (String × String)) :
   else if line.startsWith "setters " then some (checkSetters inp obs)
   else if line.startsWith "leasemgr " then some (checkLeaseMgr inp obs)
   else if line.startsWith "lease " then some (checkLease inp obs)
+  else if line.startsWith "events " then some (checkEvents inp obs)
+  else if line.startsWith "stress " then some (checkStress inp obs)
   else none
 
 partial def loop (h : IO.FS.Stream) (t : Tot) (n : Nat) : IO Tot := do
